@@ -298,7 +298,9 @@ REGISTRY["C09"] = {
                    "calls return (all-parked fixpoint with unfinished participants = deadlock); after cancel + senders done channels and Done() are closed. "
                    "(b) Engine: C01-style generated programs run with two recording subscribers; both must see the identical sequence and the stream must "
                    "obey the causality grammar (FlowTrace announces forked flows before their NewFlowTrace, Visit before Leave per node, nothing after a flow's "
-                   "TerminationTrace). (c) TestC09CancelledStart: processes with 2..3 start events and disjoint task chains; the context handed to ONE StartWith call is cancelled (the instance context stays alive) after 0..2 answers in its chain, then the other start events are triggered and their chains answered: every later request must still arrive, no call may block, and two recording subscribers must have seen the same sequence - an internal subscriber (completion monitor, relay) that goes away at the cancellation must not disturb the stream."),
+                   "TerminationTrace). (c) TestC09CancelledStart: processes with 2..3 start events and disjoint task chains; the context handed to ONE StartWith call is cancelled (the instance context stays alive) after 0..2 answers in its chain, then the other start events are triggered and their chains answered: every later request must still arrive, no call may block, and two recording subscribers must have seen the same sequence - an internal subscriber (completion monitor, relay) that goes away at the cancellation must not disturb the stream. "
+                   "(d) TestC09CancelledSet: a process set (built with a context of its own or none) whose RUN context is cancelled while 2..24 flows are alive: both subscribers of the set's tracer receive "
+                   "one cancellation trace per flow that was alive and the same sequence - the set's watchers of the per-process tracers leave at that moment and must not stall the stream."),
     "level_note": "Trusted: the logical-clock bounds (Send returns when the broadcaster has taken the trace), the grammar checker drive.Causality, quiescence detector. Interleavings are sampled (perturbation at tracer.Send, GOMAXPROCS variation).",
     "technique": "rapid property tests: generated concurrent sender/subscriber scripts against an order/infix oracle; trace-grammar invariant over generated engine runs",
     "rule": ("(a) distinct = script; non-trivial = >=2 senders and >=1 subscriber that joined or left mid-stream. (b) distinct = lock-step case; non-trivial = the run contains >=1 fork (FlowTrace announcing >1 flow)."),
@@ -306,6 +308,7 @@ REGISTRY["C09"] = {
         {"name": "TestC09Tracer", "checks": {"quick": 250, "thorough": 20000}, "shards": {"quick": 12, "thorough": 16}, "gomaxprocs": [4, 2, 16, 1]},
         {"name": "TestC09Engine", "checks": {"quick": 120, "thorough": 4000}, "shards": {"quick": 8, "thorough": 16}, "gomaxprocs": [4, 2, 16, 1]},
         {"name": "TestC09CancelledStart", "checks": {"quick": 60, "thorough": 2000}, "shards": {"quick": 4, "thorough": 16}, "gomaxprocs": [4, 2, 16, 1]},
+        {"name": "TestC09CancelledSet", "checks": {"quick": 60, "thorough": 1500}, "shards": {"quick": 4, "thorough": 8}, "gomaxprocs": [4, 1, 2, 16]},
     ],
 }
 
